@@ -23,6 +23,8 @@ const baseTime = int64(1672560000) // 2023-01-01T08:00:00Z
 type CPrec struct {
 	To     int  `json:"to"`
 	Direct bool `json:"direct"`
+	// AsSucceeds: written in the JSON on the successor stop (`succeeds`) instead of on this stop (`precedes`)
+	AsSucceeds bool `json:"as_succeeds,omitempty"`
 }
 
 type CMix struct {
@@ -232,6 +234,9 @@ func genCase(rng *rand.Rand, p Profile) *Case {
 			}
 			if useWaitStop && rng.Intn(2) == 0 {
 				s.MaxWait = ip(60 * rng.Intn(40))
+				if rng.Intn(4) == 0 {
+					s.MaxWait = ip(0) // zero is a legal limit: no waiting at all
+				}
 			}
 		}
 		if useAttrs && rng.Intn(2) == 0 {
@@ -283,7 +288,7 @@ func genCase(rng *rand.Rand, p Profile) *Case {
 			g := perm[i : i+k]
 			shape := rng.Intn(4)
 			add := func(a, b int, direct bool) {
-				c.Stops[a].Precedes = append(c.Stops[a].Precedes, CPrec{To: b, Direct: direct})
+				c.Stops[a].Precedes = append(c.Stops[a].Precedes, CPrec{To: b, Direct: direct, AsSucceeds: rng.Intn(3) == 0})
 			}
 			switch {
 			case shape == 0 && k >= 4: // diamond
@@ -411,7 +416,7 @@ func genCase(rng *rand.Rand, p Profile) *Case {
 			}
 		}
 		if on(p.Limits, 4) {
-			ve.MaxStops = ip(1 + rng.Intn(n))
+			ve.MaxStops = ip(rng.Intn(n + 1))
 			c.feature("max_stops")
 		}
 		if on(p.Limits, 4) {
@@ -428,6 +433,9 @@ func genCase(rng *rand.Rand, p Profile) *Case {
 		}
 		if useWaitVeh && rng.Intn(2) == 0 {
 			ve.MaxWait = ip(60 * rng.Intn(60))
+			if rng.Intn(5) == 0 {
+				ve.MaxWait = ip(0)
+			}
 			c.feature("max_wait_vehicle")
 		}
 		if useAttrs && rng.Intn(3) != 0 {
@@ -721,16 +729,44 @@ func (c *Case) stopJSON(s CStop, idx int, alt bool) map[string]any {
 	if s.Attrs != nil {
 		m["compatibility_attributes"] = s.Attrs
 	}
-	if len(s.Precedes) > 0 {
+	// arcs written on this stop as `succeeds` (declared by some predecessor with AsSucceeds)
+	var ss []any
+	for pi, ps := range c.Stops {
+		for _, p := range ps.Precedes {
+			if p.AsSucceeds && p.To == idx {
+				if p.Direct {
+					ss = append(ss, map[string]any{"id": c.Stops[pi].ID, "direct": true})
+				} else {
+					ss = append(ss, c.Stops[pi].ID)
+				}
+			}
+		}
+	}
+	if len(ss) == 1 {
+		if str, ok := ss[0].(string); ok {
+			m["succeeds"] = str
+		} else {
+			m["succeeds"] = ss
+		}
+	} else if len(ss) > 1 {
+		m["succeeds"] = ss
+	}
+	own := s.Precedes[:0:0]
+	for _, p := range s.Precedes {
+		if !p.AsSucceeds {
+			own = append(own, p)
+		}
+	}
+	if len(own) > 0 {
 		var ps []any
-		for _, p := range s.Precedes {
+		for _, p := range own {
 			if p.Direct {
 				ps = append(ps, map[string]any{"id": c.Stops[p.To].ID, "direct": true})
 			} else {
 				ps = append(ps, c.Stops[p.To].ID)
 			}
 		}
-		if len(ps) == 1 && !s.Precedes[0].Direct {
+		if len(ps) == 1 && !own[0].Direct {
 			m["precedes"] = ps[0]
 		} else {
 			m["precedes"] = ps
